@@ -39,6 +39,9 @@ type C18Case struct {
 	Payload []byte `json:"payload,omitempty"`
 	Mcast   bool   `json:"mcast,omitempty"`
 	Tight   *int   `json:"tight,omitempty"` // send: repeat on a fresh client whose read buffer is the reply size plus this many bytes
+	// HdrSeq: what the caller left in the message's sequence field (a header copied from an earlier reply, a
+	// reused struct): Send assigns the number whatever is there
+	HdrSeq uint32 `json:"hdr_seq,omitempty"`
 }
 
 func (c C18Case) Describe() string {
@@ -46,7 +49,7 @@ func (c C18Case) Describe() string {
 	if len(p) > 80 {
 		p = p[:80]
 	}
-	return fmt.Sprintf("kind=%s type=%d flags=%#x mcast=%v payload(%d bytes)=%x", c.Kind, c.Type, c.Flags, c.Mcast, len(c.Payload), p)
+	return fmt.Sprintf("kind=%s type=%d flags=%#x mcast=%v header-seq-left-by-caller=%d payload(%d bytes)=%x", c.Kind, c.Type, c.Flags, c.Mcast, c.HdrSeq, len(c.Payload), p)
 }
 
 func genC18(t *rapid.T) C18Case {
@@ -57,6 +60,9 @@ func genC18(t *rapid.T) C18Case {
 		c.Flags = syscall.NLM_F_REQUEST | rapid.OneOf(rapid.Just(uint16(0)), rapid.Just(uint16(syscall.NLM_F_ACK)), rapid.Uint16()).Draw(t, "flags")
 		n := rapid.OneOf(rapid.IntRange(0, 64), rapid.IntRange(0, 8970), rapid.SampledFrom([]int{0, 1, 2, 3, 4, 5, 7, 1023, 4096, 8969, 8970})).Draw(t, "len")
 		c.Payload = rapid.SliceOfN(rapid.Byte(), n, n).Draw(t, "payload")
+		if rapid.IntRange(0, 2).Draw(t, "prefilledseq") == 0 {
+			c.HdrSeq = rapid.OneOf(rapid.SampledFrom([]uint32{1, 2, 0xffffffff, 7}), rapid.Uint32()).Draw(t, "hdrseq")
+		}
 		if rapid.IntRange(0, 2).Draw(t, "tight") == 0 {
 			slack := rapid.SampledFrom([]int{0, 0, 0, 1, 2, 3, 4, 16}).Draw(t, "slack")
 			c.Tight = &slack
@@ -251,9 +257,12 @@ func propC18(c C18Case) error {
 	defer sockMu.Unlock()
 	switch c.Kind {
 	case "send":
-		seq, err := routeClient.Send(syscall.NetlinkMessage{Header: syscall.NlMsghdr{Type: c.Type, Flags: c.Flags}, Data: c.Payload})
+		seq, err := routeClient.Send(syscall.NetlinkMessage{Header: syscall.NlMsghdr{Type: c.Type, Flags: c.Flags, Seq: c.HdrSeq}, Data: c.Payload})
 		if err != nil {
 			return fmt.Errorf("Send(type %d, flags %#x, %d bytes): %v", c.Type, c.Flags, len(c.Payload), err)
+		}
+		if c.HdrSeq != 0 {
+			hC18.Class("send-with-prefilled-sequence-field")
 		}
 		if lastSeq != 0 && seq <= lastSeq && !(lastSeq > 1<<31 && seq < 1<<31) {
 			return fmt.Errorf("Send returned sequence %d after %d: not increasing", seq, lastSeq)
